@@ -256,7 +256,7 @@ pub fn run(case: &Value, _ctx: &Ctx) -> Outcome {
                 );
             }
             // "summing along an axis equals ADDING THOSE VIEWS": on cell values that are not small integers (tenths, huge
-            // values, infinities) the sum must be, bit for bit, what adding the views position by position gives
+            // values, infinities) the sum must be what adding the views position by position gives
             if shape.len() > 1 {
                 let n: usize = shape.iter().product();
                 let classes: [(&str, Vec<f64>); 3] = [
@@ -279,7 +279,10 @@ pub fn run(case: &Value, _ctx: &Ctx) -> Outcome {
                             acc
                         });
                         match (got, by_views) {
-                            (Ok(g), Ok(w)) => out.check(g.len() == w.len() && g.iter().zip(&w).all(|(x, y)| x.to_bits() == y.to_bits() || (x.is_nan() && y.is_nan())),
+                            // finite sums may differ in the last bits (another association of the same additions is no violation);
+                            // an infinite or NaN sum must be exactly what adding the views gives
+                            (Ok(g), Ok(w)) => out.check(g.len() == w.len() && g.iter().zip(&w).all(|(x, y)| x.to_bits() == y.to_bits() || (x.is_nan() && y.is_nan())
+                                    || (x.is_finite() && y.is_finite() && (x - y).abs() <= 1e-12 * x.abs().max(y.abs()))),
                                 || format!("array/sum-vs-views/{cname}"), || json!({"shape": shape, "axis": a, "sum": g.iter().map(|x| x.to_string()).collect::<Vec<_>>(), "views_added": w.iter().map(|x| x.to_string()).collect::<Vec<_>>()})),
                             (g, w) => out.fail(format!("array/sum-vs-views/{cname}/panic"), json!({"sum": format!("{:?}", g.err()), "views": format!("{:?}", w.err())})),
                         }
